@@ -86,7 +86,7 @@ func Check(env *core.Env, rep *core.Report) *core.Result {
 		})
 	}
 	// (b) scenarios with the outcomes the model allows
-	gens := []string{"r1c1", "r1c2", "r2c1", "r2c2", "s2", "e1", "e2", "e3"}
+	gens := []string{"r1c1", "r1c2", "r2c1", "r2c2", "s2", "e1", "e2", "e3", "e2c2"}
 	if thorough {
 		gens = append(gens, "r3c1", "r3c2", "s3", "e4", "r4c1", "s4")
 	}
